@@ -37,9 +37,11 @@ func allChecks() []CheckSpec {
 				{Fn: "verifC01TwoAgents", Lemma: "two real agents (controlling / controlled, each holding the other's credentials and candidates) joined by a harness network in which every emitted datagram is in flight until delivered, dropped or duplicated: an adversarial prefix of explorer-chosen steps from {tick A, tick B, deliver oldest to B, deliver oldest to A, drop, drop, duplicate/reorder}, then a fair loss-free suffix of 6 rounds. At every step: the selection invariant holds on both sides and Connected is reported exactly while a pair is selected; if the path is not reachable in both directions neither side ever selects or connects; if it is, after the suffix both are Connected and the selected pairs are mirror images",
 					Bounds: "quick: 1 candidate per side (1 pair), 3 adversarial steps; thorough: 2 candidates per side (4 pairs) with 2 steps and 1 per side with 4 steps (2 per side with 4 steps exhausted a 45 min budget and is not claimed); reachability matrix per direction; real stun.Build/Decode on every datagram; transaction ids and clock symbolic", MustReach: []string{"reachable", "unreachable", "done"}},
 				{Fn: "verifC01NominationLemmas", Lemma: "step lemmas for convergence, one authenticated message (request or matched response) into the real handleInbound from a symbolic agent state: (N1) a controlling agent with a nomination outstanding never replaces it and USE-CANDIDATE only ever goes out on the one pair being nominated; a pair nominated on an inbound request is valid; (N2) a controlled agent's deferred nomination (accepted for a not-yet-valid pair) stays armed through every inbound message until that pair is selected",
-					Bounds: "2 local + 1 remote candidates (2 pairs), symbolic pair states/flags, selection nil or any, nominatedPair nil or any valid pair, 0..1 outstanding transactions, candidate priorities 1..256", MustReach: []string{"controlling", "controlled", "nomination-outstanding", "USE-CANDIDATE-sent", "deferred-nomination-armed", "done"}},
+					Bounds: "2 local + 1 remote candidates (2 pairs), symbolic pair states/flags, selection nil or any, nominatedPair nil or any valid pair, 0..1 outstanding transactions, candidate priorities 1..256", MustReach: []string{"controlling", "controlled", "nomination-outstanding", "USE-CANDIDATE-sent", "deferred-nomination-armed", "request-on-a-not-yet-valid-pair", "done"}},
 				{Fn: "verifC01TickProgress", Lemma: "progress of one real ContactCandidates tick while nothing is selected, from a symbolic agent state: an outstanding nomination is retransmitted (exactly one USE-CANDIDATE request on that pair, the pair is kept); with a valid pair and no nomination outstanding the best valid pair gets nominated and the nomination goes out on it; otherwise every Waiting/In-Progress pair within its retry budget is checked again (one request, count+1) and a pair beyond the budget fails; the controlled side never sends USE-CANDIDATE",
 					Bounds: "2 pairs, symbolic states, retry counts 0..9 against the budget of 7, 32-bit candidate priorities, both roles (full agents)", MustReach: []string{"retransmit", "nominate", "check", "rechecked", "budget-exhausted", "done"}},
+				{Fn: "verifC01LateResponse", Lemma: "a retransmission does not cancel the transaction it repeats: after 2..3 ticks on a not-yet-valid pair every check sent is still outstanding, and the authenticated response to ANY of them — the first included, i.e. a round trip longer than the check interval — validates the pair",
+					Bounds: "1 pair, 2..3 ticks, both roles, 96-bit transaction ids symbolic, clock steps within one transaction lifetime", MustReach: []string{"late-response", "done"}},
 			},
 			Assumptions: append([]string{
 				"bounded: the adversarial prefix has 3 (thorough 2 or 4, see bounds) steps and the suffix 6 rounds; 'eventually' is checked only as 'within the suffix'",
@@ -57,6 +59,14 @@ func allChecks() []CheckSpec {
 						c.ContextBound = 2 + tier
 						c.MaxPaths = 4000000
 						c.MaxWallS = 1200
+					}},
+				{Fn: "verifC11Reselect", Lemma: "schedule exploration over the real notifier: one producer enqueues A, B, A (a value notified again after another one: a pair re-selected after a switch, a state re-entered) with a handler that yields inside: all three are delivered, in order; then a plain Close followed by a GracefulClose: the graceful one still waits for the running handler",
+					Bounds: "3 events on the state or the selected-pair stream, producer + drainer + harness, at most 2 (thorough 3) preemptions", MustReach: []string{"done"},
+					Cfg: func(c *HarnessCfg, tier int) {
+						c.GoPolicy = "explore"
+						c.ContextBound = 2 + tier
+						c.MaxPaths = 2000000
+						c.MaxWallS = 900
 					}},
 				{Fn: "verifC11GatherVsRestart", Lemma: "GatherCandidates racing with Restart on the real task loop, the real gatherCandidates goroutine and the real notifier: at most one nil candidate per cycle, exactly one when the cycle completed, none from a refused or cancelled cycle, final gathering state New or Complete",
 					Bounds: "one gather call and one Restart, fake net without interfaces, Restart after 0..8 (thorough 0..12) fair hand-overs, context bound 1, the first 5 (thorough 7) non-preemptive switch points explored over all enabled threads, later ones least-recently-run", MustReach: []string{"completed", "cancelled-by-restart", "done"},
@@ -185,6 +195,14 @@ func allChecks() []CheckSpec {
 				{Fn: "verifC15TwoPeers", Lemma: "two TCP connections naming the same unregistered ufrag share one provisional packet conn; unless the agent claims the ufrag (GetConnByUfrag) its expiry stays armed and, when it fires, closes both TCP connections and removes the packet conn; once claimed it does not expire",
 					Bounds: "2 peers, symbolic priorities/transaction ids, claimed or not; the alive timer fires when the harness fires it", MustReach: []string{"claimed", "expired", "done"},
 					Cfg: func(c *HarnessCfg, tier int) { c.GoPolicy = "queue" }},
+				{Fn: "verifC15CloseWithFullQueue", Lemma: "schedule exploration over the real tcpPacketConn (AddConn's reader goroutine, startReading, handleRecv, Close): with a receive queue of one packet that is full and never read, Close still returns (the parked readers are released), every TCP connection is closed, and when Close has returned the reader goroutines have ended",
+					Bounds: "1..2 TCP connections with 1..2 framed packets each, queue capacity 1, Close after 0..3 fair hand-overs, at most 1 (thorough 2) preemptions", MustReach: []string{"queue-full-at-close", "done"},
+					Cfg: func(c *HarnessCfg, tier int) {
+						c.GoPolicy = "explore"
+						c.ContextBound = 1 + tier
+						c.MaxPaths = 2000000
+						c.MaxWallS = 900
+					}},
 			},
 			Assumptions: append([]string{
 				"sequential: the accept loop, per-connection reader and close watchers are scheduled cooperatively (a blocked goroutine yields); time.AfterFunc callbacks fire only when the harness fires them",
